@@ -242,7 +242,6 @@ func (c *ctx) streamP() error {
 	return c.runOps("primitive", cases)
 }
 
-
 // ---------------------------------------------------------------------------------------------
 
 // streamS: FieldNumber.String, error text, bitset.
